@@ -713,8 +713,8 @@ pub fn property() -> Property {
         ],
         both_profiles: true,
         subs: vec![
-            sub("stable/history", 120_000, 3_000_000, strategy, run),
-            sub("stable/u8-capacity", 4_000, 100_000, capacity_strategy, run),
+            sub("stable/history", 240_000, 3_000_000, strategy, run),
+            sub("stable/u8-capacity", 8_000, 200_000, capacity_strategy, run),
         ],
     }
 }
